@@ -4,7 +4,7 @@
     which func was called, in call order.  [find_root_h] additionally tags how a number was reached.
     [ROps] is the real-number instance; f is an ARBITRARY function R -> R unless continuity is stated. *)
 From Coq Require Import Reals ZArith List Bool.
-From LP Require Import Num NumR C02_Model C02_Proofs C02_Proofs2.
+From LP Require Import Num NumR OrdLaws C02_Model C02_Proofs C02_Proofs2 C02_Proofs3.
 Import ListNotations.
 Local Open Scope R_scope.
 
@@ -180,3 +180,42 @@ Theorem C02_nan_end_beats_zero_end {T : Type} (Ops : NumOps T) (f : T -> T) (a b
   forall rest, find_root_seq Ops ((f, a, b, acc) :: rest) = [(Exit, [xl; xr])].
 Proof. exact (nan_end_beats_zero_end Ops f a b acc). Qed.
 Print Assumptions C02_nan_end_beats_zero_end.
+
+(** The cost of a request — Ridder's iteration cannot creep (the property's "why": the stopping test of an earlier
+    version compared successive iterates, "which says nothing about the distance to the root when the iteration
+    creeps").  For EVERY function and every n from 1 to Max_Iterations: a bracket narrower than acc * 2^n is
+    answered after at most 2 + 2n evaluations of the objective function (the two ends, two per pass, every pass
+    at least halving the bracket), and not through the iteration limit. *)
+Theorem C02_evaluation_count (f : R -> R) (a b acc : R) (n : nat) :
+  (1 <= n <= max_iterations)%nat -> Rmax a b - Rmin a b < acc * 2 ^ n ->
+  (length (snd (find_root_h ROps f a b acc)) <= 2 + 2 * n)%nat /\
+  forall x, fst (find_root_h ROps f a b acc) <> Ok (x, HMaxIter).
+Proof. exact (evaluation_count f a b acc n). Qed.
+Print Assumptions C02_evaluation_count.
+
+(** "it never evaluates the function outside the bracket", for the Ridder point of every pass on EVERY ordered
+    instance of the number interface (IEEE doubles without NaN abscissae included; no law of arithmetic is used,
+    so whatever rounding did to x4): a pass evaluates the function at exactly two abscissae, and the second one
+    lies in [min(x1,x2), max(x1,x2)] of the current loop state. *)
+Theorem C02_ridder_point_clamped_any_instance {T : Type} (Ops : NumOps T) (OL : OrdLaws Ops) (f : T -> T) (acc : T) (s : st) :
+  exists x3 x4, snd (step Ops f acc s) = [x3; x4] /\
+                nleb Ops (nmin Ops (sx1 s) (sx2 s)) x4 = true /\ nleb Ops x4 (nmax Ops (sx1 s) (sx2 s)) = true.
+Proof. exact (ridder_point_clamped Ops OL f acc s). Qed.
+Print Assumptions C02_ridder_point_clamped_any_instance.
+
+(** "Only the ratios of the three function values enter" (Numerics.cpp): multiplying the objective function by any
+    non-zero constant k, negative ones included ([sclf k f] = fun x => k * f x), changes neither the outcome (number,
+    way it was reached, exit) nor one evaluation abscissa. *)
+Theorem C02_scale_invariant (f : R -> R) (k a b acc : R) : k <> 0 ->
+  find_root_h ROps (sclf k f) a b acc = find_root_h ROps f a b acc.
+Proof. exact (scale_invariant f k a b acc). Qed.
+Print Assumptions C02_scale_invariant.
+
+(** The unit of x is immaterial: the request with x measured in another unit ([xs c f] = fun x => f (x / c), ends
+    c a and c b, accuracy c acc, c > 0) is answered by c times the answer through c times every evaluation abscissa
+    ([xout c] multiplies the returned number by c and keeps the way it was reached; exits stay exits). *)
+Theorem C02_x_scale_covariant (f : R -> R) (c a b acc : R) : 0 < c ->
+  find_root_h ROps (xs c f) (c * a) (c * b) (c * acc) =
+  (xout c (fst (find_root_h ROps f a b acc)), map (Rmult c) (snd (find_root_h ROps f a b acc))).
+Proof. exact (x_scale_covariant f c a b acc). Qed.
+Print Assumptions C02_x_scale_covariant.
